@@ -53,6 +53,11 @@ def cases(draw, max_members):
             prev = draw(st.sampled_from(members))
             sub = [s for s in specs if s['name'] == prev['tag']]
             op = draw(tagcheck.op_strategy(sub or specs, mode))
+        elif draw(st.integers(0, 5)) == 0:
+            # a member addressed to another CIP object of the device (Identity, TCP/IP, the Connection Manager's peer objects)
+            op = {'svc': 'foreign', 'tag': '', 'request': draw(st.sampled_from([
+                ['gas', 1, 1, 7], ['gas', 1, 1, 1], ['gaa', 1, 1], ['gas', 0xF5, 1, 5], ['gaa', 0x66, 1], ['gas', 0x66, 1, 4],
+                ['gas', 1, 1, 200], ['sas', 1, 1, 1]]))}
         else:
             op = draw(tagcheck.op_strategy(specs, mode))
         members.append(op)
@@ -94,6 +99,13 @@ def pred(case, stats):
         # encode members
         msgs, ops = [], []
         for op in case['members']:
+            if op['svc'] == 'foreign':
+                kind, cls, ins = op['request'][:3]
+                path = [{'class': cls}, {'instance': ins}] + ([{'attribute': op['request'][3]}] if len(op['request']) > 3 else [])
+                msgs.append(rc.req_get_attributes_all(path) if kind == 'gaa' else rc.req_get_attribute_single(path) if kind == 'gas'
+                            else rc.req_set_attribute_single(path, b'\x01\x00'))
+                ops.append(op)
+                continue
             if op.get('unknown_object') and not op.get('unknown_attribute'):
                 stats.exclude('member addressing an unknown object (no CIP reply individually)')
                 continue
@@ -141,9 +153,13 @@ def pred(case, stats):
         bundle = rc.req_multiple(msgs)
         outB = sessB.send(bundle)
         failed = [o['reply']['status'] not in (0x00, 0x06) for o in single]
+        if any(o['svc'] == 'foreign' for o in ops):
+            pass
         writes = [i for i, o in enumerate(ops) if o['svc'] in ('write_tag', 'write_frag', 'set_attr')]
         dep = any(ops[j]['tag'].lower() == ops[i]['tag'].lower() for i in writes for j in range(i + 1, len(ops)))
         classes = ['members:%d' % min(len(ops), 6), 'some-fail' if any(failed) else 'none-fail']
+        if any(o['svc'] == 'foreign' and i < len(ops) - 1 for i, o in enumerate(ops)):
+            classes.append('foreign-object-member-followed-by-others')
         if any(failed) and not all(failed):
             classes.append('mixed-fail-succeed')
         if dep:
